@@ -180,7 +180,8 @@ else:
     ctx.add('C19.R2', 'GenerateModel.__init__', ok, init, 'utility i reads the attributes with suffix _i; the second sample uses the MEV prefix; without second partition the MEV sample is the main sample minus the chosen alternative' if ok else 'construction of the sampled utilities changed', 'utilities')
     n3 = 0
     for name, fn in M.methods.items():
-        for lp in [n for n in walk_no_nested(fn.node) if isinstance(n, (ast.For, ast.DictComp))]:
+        COMPS = (ast.DictComp, ast.ListComp, ast.SetComp, ast.GeneratorExp)
+        for lp in [n for n in walk_no_nested(fn.node) if isinstance(n, (ast.For,) + COMPS)]:
             it = lp.iter if isinstance(lp, ast.For) else lp.generators[0].iter
             tgt = lp.target if isinstance(lp, ast.For) else lp.generators[0].target
             src = unparse(it)
@@ -188,7 +189,7 @@ else:
                 continue
             idx = unparse(tgt.elts[0]) if isinstance(tgt, ast.Tuple) else unparse(tgt)
             main = src == 'self.utilities.items()'
-            scope = lp.body if isinstance(lp, ast.For) else [lp.key, lp.value]
+            scope = lp.body if isinstance(lp, ast.For) else [lp.key, lp.value] if isinstance(lp, ast.DictComp) else [lp.elt]
             for part in scope:
                 for v in ast.walk(part):
                     if isinstance(v, ast.Call) and call_name(v) == 'Variable' and v.args and isinstance(v.args[0], ast.JoinedStr):
